@@ -121,6 +121,32 @@ def hRel : Handler := fun t args observed =>
     pure (classify observed model propFail (nt := oh.narcs + od.narcs ≥ 1) tags)
   | _, _ => none
 
-def handlers : List (String × Handler) := [("pred_unary", hUnary), ("pred_rel", hRel)]
+/-- `pred_tour <repr> <n> [] | [a b]`: compact form of a dense `pred_unary` case — the rule tournament
+on `0..n` (`u < v`: `u → v` when `u + v` is even, else `v → u`), optionally with the pair `{a, b}` not
+joined and another pair doubled (size stays `n(n-1)/2`).  Same rule as `c12.rs: tour_arcs`. -/
+def tourArcs (n : Nat) (missing : Option (Nat × Nat)) : List (Nat × Nat) :=
+  let dbl := missing.map (fun p => if min p.1 p.2 ≥ 2 then (0, 1) else (n - 2, n - 1))
+  (List.range n).flatMap (fun u => (List.range' (u + 1) (n - (u + 1))).flatMap (fun v =>
+    if missing == some (u, v) then []
+    else if dbl == some (u, v) then [(u, v), (v, u)]
+    else if (u + v) % 2 == 0 then [(u, v)] else [(v, u)]))
+
+def hTour : Handler := fun t args observed =>
+  match args with
+  | [.a repr, nV, prV] => do
+    let n ← V.nat? nV
+    let pr ← V.listOf? V.nat? prV
+    let missing ← match pr with
+      | [] => some none
+      | [a, b] => if a < b && b < n && n ≥ 4 then some (some (a, b)) else none
+      | _ => none
+    if n == 0 then none
+    let head := if repr == "am" then V.ofNats (List.range n) else V.ofNat n
+    let dv : V := .l [.a repr, head, V.ofPairs (tourArcs n missing)]
+    let v ← hUnary t [dv] observed
+    pure { v with tags := v.tags ++ [if n ≥ 192 then "order>=192" else "order<192"] }
+  | _ => none
+
+def handlers : List (String × Handler) := [("pred_unary", hUnary), ("pred_rel", hRel), ("pred_tour", hTour)]
 
 end GraafVerif.Driver.H12
